@@ -261,8 +261,6 @@ impl CuckaroomContext {
 //@+        lemma_nodes_distinct(from@, to@, path);
 //@+        assert(simple_dcycle(from@, to@, n as int));
 //@+    }
-//@   requires:
-//@+    self.params.proof_size == sp_proofsize(),
 //@   ensures:
 //@+    r matches Err(Error::WrongLen) ==> proof.nonces@.len() != sp_proofsize(),
 //@+    r matches Err(Error::TooBig) ==> exists|a: int| 0 <= a < proof.nonces@.len() && #[trigger] proof.nonces@[a] > self.params.edge_mask,
